@@ -259,7 +259,7 @@ func (e *Eng) evalCallInner(st *State, call *ast.CallExpr) []*Val {
 			e.entrySyms = append(e.entrySyms, paramSym(nm, rv))
 		}
 	}
-	if (con == nil || !(con.NoPanic || con.NoEscape)) && !(e.con != nil && e.con.NoPanic) {
+	if (con == nil || !(con.NoPanic || con.NoEscape || con.AssumeNoPanic)) && !(e.con != nil && e.con.NoPanic) {
 		// fork an exceptional path
 		ps := st.clone()
 		ps.panicking = true
@@ -284,7 +284,7 @@ func (e *Eng) evalCallInner(st *State, call *ast.CallExpr) []*Val {
 		e.havocHeap(st)
 		return results
 	}
-	if e.con != nil && e.con.NoPanic && !con.NoPanic {
+	if e.con != nil && e.con.NoPanic && !(con.NoPanic || con.AssumeNoPanic) {
 		e.oblige(st, "nopanic", "callee-may-panic "+shortKey(key), "false", call.Pos())
 	}
 	if e.con != nil && e.con.Pure && !con.Pure {
@@ -582,6 +582,7 @@ func (e *Eng) evalBuiltin(st *State, name string, call *ast.CallExpr) []*Val {
 		if st.panicking {
 			st.panicking = false
 			st.recovered = true
+			st.vars[e.recObj()] = scalar("true", "Bool", types.Typ[types.Bool])
 			r := e.freshVal("recovered", types.NewInterfaceType(nil, nil))
 			e.decls = append(e.decls, fmt.Sprintf("(assert (not (= (itag %s) 0)))", r.T))
 			return []*Val{r}
@@ -611,4 +612,12 @@ func shortText(t string) string {
 		return t[:70] + "..."
 	}
 	return t
+}
+
+// recObj is the ghost variable "a panic was recovered on this path" (merged symbolically like any variable).
+func (e *Eng) recObj() types.Object {
+	if e.recVar == nil {
+		e.recVar = types.NewVar(token.NoPos, nil, "panicked", types.Typ[types.Bool])
+	}
+	return e.recVar
 }
